@@ -98,11 +98,10 @@ def rule_e4(ctx):
         results["JoinLoop"] = C02.check_protocol(res, "E4", ctx, "JoinLoop", cb, None, "join", spec, ("A", env_arg(cb)), "environment")
     # every other caller of mux_envs must be one of the constructs above
     known = {f["id"]} | set(jl)
-    for fn in ctx.facts["fns"]:
-        if "mir" in fn and fn["id"] not in known:
-            for _, t in ctx.body(fn["id"]).calls():
-                if mir.callee(t) == MUX_ENVS:
-                    res.bad(Finding("E4", fn["id"], "unlisted mux_envs user", "environments are merged in a function this rule does not analyse", t["sp"]))
+    extra = sorted({fn["id"] for fn in ctx.facts["fns"] if "mir" in fn and fn["id"] not in known and
+                    any(mir.callee(t) == MUX_ENVS for _, t in ctx.body(fn["id"]).calls())})
+    if extra and not res.findings:
+        raise AnchorMissing("E4: %s merges environments but is not one of the constructs this rule analyses" % extra)
     return res
 
 
